@@ -154,6 +154,49 @@ def run(check, prog):
     tempered_stage_count(check, prog)
     shared_objects_aliased(check, prog)
     scalars_never_aliased(check, prog)
+    writer_drops_only_unfindable_defaults(check, prog)
+
+
+def writer_drops_only_unfindable_defaults(check, prog):
+    """R3b: the one thing the yaml writer may leave out of what the saver emits is
+    an argument that has a default and whose value is a function no loader could
+    find again (it would be written by name and the whole file refused).  Every
+    `continue` in the writer's loop over `_iteritems()` sits under a conjunction
+    of exactly these two tests -- and the filter is not in `_iteritems` itself,
+    which also feeds `repr` and `==` (two strategies with different lambdas would
+    compare equal)."""
+    import ast
+    q = HPO + '.to_yaml'
+    fd = prog.func(q)
+    loc = prog.loc(q, fd)
+    skips = []
+    for loop in ast.walk(fd):
+        if not isinstance(loop, ast.For) or '_iteritems' not in ast.unparse(loop.iter):
+            continue
+        for st in ast.walk(loop):
+            if isinstance(st, ast.If) and any(isinstance(x, ast.Continue)
+                                              for b in st.body for x in ast.walk(b)):
+                skips.append(st)
+    for st in skips:
+        parts = st.test.values if isinstance(st.test, ast.BoolOp) and \
+            isinstance(st.test.op, ast.And) else [st.test]
+        txt = [ast.unparse(p_) for p_ in parts]
+        has_default = any(' in ' in t_ and 'not in' not in t_ for t_ in txt)
+        unfindable = any(t_.replace(' ', '').startswith('notfound_by_name(') for t_ in txt)
+        check.require(has_default and unfindable and len(parts) == 2,
+                      'R3-writer-drops-only-unfindable-defaults',
+                      'HoloPyObject.to_yaml skip', 'an emitted pair is left out only if '
+                      'the argument has a default and its value is a function that '
+                      'cannot be found by name', loc,
+                      fail_detail='skips when %s' % ' and '.join(txt)[:120])
+    it = Interp(prog, max_depth=0)
+    it.analyze(HPO + '._iteritems')
+    inside = [c for c in it.calls if c['name'].endswith('found_by_name')]
+    check.require(not inside, 'R3-writer-drops-only-unfindable-defaults',
+                  'HoloPyObject._iteritems', 'the saver itself (which repr and == '
+                  'read) leaves nothing out for being a function', loc,
+                  fail_detail='_iteritems consults found_by_name: objects that differ '
+                  'in a lambda argument print and compare alike')
 
 
 def scalars_never_aliased(check, prog):
@@ -204,7 +247,11 @@ def scalars_never_aliased(check, prog):
                     isinstance(op_.func, ast.Name) and op_.func.id == 'isinstance' and \
                     isinstance(op_.args[0], ast.Name) and op_.args[0].id == arg:
                 kinds = {e.id for e in ast.walk(op_.args[1]) if isinstance(e, ast.Name)}
-                if {'int', 'float', 'str'} <= kinds and returns_true and \
+                kinds |= {e.attr for e in ast.walk(op_.args[1])
+                          if isinstance(e, ast.Attribute)}
+                numeric = {'int', 'float'} <= kinds or 'Number' in kinds or \
+                    'Real' in kinds
+                if numeric and 'str' in kinds and returns_true and \
                         first_scalar is None:
                     first_scalar = pos
                     scalar_stmt = i
